@@ -410,15 +410,20 @@ func (e *crashEngine) recover(img image) (res string) {
 			// names it again: a file can therefore come to rest just above the threshold by the file's own bytes although it was
 			// just below it when visited. A restart clears the visited set; the verdict is taken after the restarted collector has
 			// seen the merged files.
-			st2.Close()
-			st3, err3 := store.OpenStore(context.Background(), kind, dp, ip, imm, opts...)
-			if err3 != nil {
-				return fmt.Sprintf("%s open=ok r0=%s post=%s r1=%s r2=%s drain=na!reopen-err", head, r0, post, r1, r2)
+			// A recovered store can go on freeing after that restart (copies of records whose index update the crash lost are
+			// freed only when a later cycle tries to move them), which recreates the situation; the verdict is taken after
+			// three restarts.
+			for pass := 0; pass < 3; pass++ {
+				st2.Close()
+				st3, err3 := store.OpenStore(context.Background(), kind, dp, ip, imm, opts...)
+				if err3 != nil {
+					return fmt.Sprintf("%s open=ok r0=%s post=%s r1=%s r2=%s drain=na!reopen-err", head, r0, post, r1, r2)
+				}
+				st2 = st3
+				st2.VerifAttachGC()
+				mp, _ = st2.Primary().(*mhprimary.MultihashPrimary)
+				rounds(st2, mp, 5-pass)
 			}
-			st2 = st3
-			st2.VerifAttachGC()
-			mp, _ = st2.Primary().(*mhprimary.MultihashPrimary)
-			rounds(st2, mp, 5)
 			var parts []string
 			ents, _ := os.ReadDir(dir)
 			for _, en := range ents {
